@@ -292,6 +292,11 @@ func RandClauseV(r *rand.Rand, o ConstOpts) ClauseV {
 				if r.Intn(6) == 0 {
 					s = BoundV{K: "now"}
 				}
+				if r.Intn(6) == 0 {
+					// both bounds the same: now, one variable, one timestamp, one duration
+					b := []BoundV{{K: "now"}, {K: "var", V: "T"}, {K: "ts", T: randTS(r)}, {K: "dur", T: randDurMs(r)}}[r.Intn(4)]
+					s, e = b, b
+				}
 				l.Op = &OpV{Type: r.Intn(4), Iv: IvV{S: s, E: e}}
 			}
 			if l.Op == nil || r.Intn(3) == 0 {
